@@ -247,8 +247,11 @@ def enr_destroy(dims, excitations, *, dtype=None):
                 n2 = state2idx[state2]
                 a_ops[idx][n2, n1] = np.sqrt(s)
 
+    # A mode that cannot hold an excitation gives the zero operator, which is
+    # Hermitian; every other lowering operator is not.
     return [
-        Qobj(a, dims=enr_dims, isunitary=False, isherm=False, dtype=dtype)
+        Qobj(a, dims=enr_dims, isunitary=False, isherm=(a.nnz == 0),
+             dtype=dtype)
         for a in a_ops
     ]
 
